@@ -30,11 +30,14 @@ Item(t, v) == [t |-> t, v |-> v]
 Fail == [ok |-> FALSE, v |-> Item("nil", <<>>), p |-> 0]
 Ok(v, p) == [ok |-> TRUE, v |-> v, p |-> p]
 
-\* first position >= p whose character does not satisfy P (Len+1 if none)
-ScanWhile(s, p, P(_)) == LET stop == {i \in p..Len(s) : ~P(s[i])} IN
-                         IF stop = {} THEN Max2(p, Len(s) + 1) ELSE CHOOSE i \in stop : \A j \in stop : i <= j
+\* first position >= p whose character is not in the class (Len+1 if none); linear scans
 IsOWS(c) == c = SP \/ c = HTAB
+ScanWhile(s, p, P(_)) == LET r == FirstIn(s, p, Len(s), LAMBDA c : ~P(c)) IN IF r = 0 THEN Max2(p, Len(s) + 1) ELSE r
 SkipOWS(s, p) == ScanWhile(s, p, IsOWS)
+ScanDigits(s, p) == ScanWhile(s, p, IsDigit)
+ScanTokenChars(s, p) == ScanWhile(s, p, IsTokenChar)
+ScanKeyChars(s, p) == ScanWhile(s, p, IsKeyChar)
+ScanToStar(s, p) == ScanWhile(s, p, LAMBDA c : c # STAR)
 
 \* ---- integers (4.2.8, Dev_NoBooleanFloat, Dev_LeadingZeros)
 MaxPos == <<57,50,50,51,51,55,50,48,51,54,56,53,52,55,55,53,56,48,55>>   \* 9223372036854775807
@@ -45,32 +48,38 @@ DigitsLeq(a, b) == Len(a) < Len(b) \/ (Len(a) = Len(b) /\ (a = b \/ BytesLess(a,
 ParseNumber(s, p) ==
   LET neg == s[p] = MINUS
       q == IF neg THEN p + 1 ELSE p
-      e == ScanWhile(s, q, IsDigit)
+      e == ScanDigits(s, q)
       mag == StripZeros(SubSeq(s, q, e - 1))
   IN IF e = q THEN Fail
      ELSE IF ~DigitsLeq(mag, IF neg THEN MaxNeg ELSE MaxPos) THEN Fail
      ELSE Ok(Item("int", IF neg /\ mag # <<48>> THEN <<MINUS>> \o mag ELSE mag), e)
 
 \* ---- strings (4.2.9): DQUOTE *(unescaped / "\" (DQUOTE / "\")) DQUOTE, characters %x20-7E
-RECURSIVE StrFrom(_, _, _)
-StrFrom(s, p, acc) ==
-  IF p > Len(s) THEN Fail
+RECURSIVE StrScan(_, _, _)
+StrScan(s, p, escs) ==       \* escs: positions of the backslashes that introduce an escape
+  IF p > Len(s) THEN [ok |-> FALSE, e |-> 0, escs |-> {}]
   ELSE LET c == s[p] IN
-       IF c = BSL THEN (IF p + 1 > Len(s) \/ s[p + 1] \notin {DQ, BSL} THEN Fail ELSE StrFrom(s, p + 2, Append(acc, s[p + 1])))
-       ELSE IF c = DQ THEN Ok(Item("str", acc), p + 1)
-       ELSE IF c < 32 \/ c > 126 THEN Fail
-       ELSE StrFrom(s, p + 1, Append(acc, c))
-ParseString(s, p) == StrFrom(s, p + 1, <<>>)
+       IF c = BSL THEN (IF p + 1 > Len(s) \/ s[p + 1] \notin {DQ, BSL} THEN [ok |-> FALSE, e |-> 0, escs |-> {}] ELSE StrScan(s, p + 2, escs \cup {p}))
+       ELSE IF c = DQ THEN [ok |-> TRUE, e |-> p, escs |-> escs]
+       ELSE IF c < 32 \/ c > 126 THEN [ok |-> FALSE, e |-> 0, escs |-> {}]
+       ELSE StrScan(s, p + 1, escs)
+ParseString(s, p) ==
+  LET q == FirstIn(s, p + 1, Len(s), LAMBDA c : c = DQ)
+      plain == q > 0 /\ FirstIn(s, p + 1, q - 1, LAMBDA c : c = BSL \/ c < 32 \/ c > 126) = 0
+      r == IF plain THEN [ok |-> TRUE, e |-> q, escs |-> {}] ELSE StrScan(s, p + 1, {}) IN
+  IF ~r.ok THEN Fail
+  ELSE Ok(Item("str", IF r.escs = {} THEN SubSeq(s, p + 1, r.e - 1)
+                      ELSE LET idx == SelectSeq([i \in 1..(r.e - p - 1) |-> p + i], LAMBDA z : z \notin r.escs)
+                           IN [i \in 1..Len(idx) |-> s[idx[i]]]), r.e + 1)
 
 \* ---- tokens (4.2.10): ALPHA *( ALPHA / DIGIT / "_" / "-" / "." / ":" / "%" / "*" / "/" )
 ParseToken(s, p) ==
   IF p > Len(s) \/ ~IsAlpha(s[p]) THEN Fail
-  ELSE LET e == ScanWhile(s, p, IsTokenChar) IN Ok(Item("tok", SubSeq(s, p, e - 1)), e)
+  ELSE LET e == ScanTokenChars(s, p) IN Ok(Item("tok", SubSeq(s, p, e - 1)), e)
 
 \* ---- byte sequences (4.2.11): "*" *base64 "*"  (Dev_UnpaddedBase64, Dev_PadBitsTolerated)
 ParseBin(s, p) ==
-  LET NotStar(c) == c # STAR
-      e == ScanWhile(s, p + 1, NotStar)
+  LET e == ScanToStar(s, p + 1)
   IN IF e > Len(s) THEN Fail
      ELSE LET body == SubSeq(s, p + 1, e - 1)
               d == B64Dec(body, FALSE, Len(body) % 4 = 0)
@@ -90,7 +99,7 @@ ParseItem(s, p) ==
 \* ---- keys (4.2.2): lcalpha *( lcalpha / DIGIT / "_" / "-" )
 ParseKey(s, p) ==
   IF p > Len(s) \/ ~IsLower(s[p]) THEN [ok |-> FALSE, k |-> <<>>, p |-> 0]
-  ELSE LET e == ScanWhile(s, p, IsKeyChar) IN [ok |-> TRUE, k |-> SubSeq(s, p, e - 1), p |-> e]
+  ELSE LET e == ScanKeyChars(s, p) IN [ok |-> TRUE, k |-> SubSeq(s, p, e - 1), p |-> e]
 
 \* ---- list of lists (4.2.4): inner members separated by ";", inner lists by ","
 FailLL == [ok |-> FALSE, v |-> <<>>]
@@ -153,8 +162,9 @@ ValidPI(pi) == /\ ValidItem(Item("tok", pi.label))
 ValidPL(v) == Len(v) > 0 /\ \A i \in 1..Len(v) : ValidPI(v[i])
 SortedParams(pi) == \A i \in 1..(Len(pi.params) - 1) : BytesLess(pi.params[i].k, pi.params[i + 1].k)
 
-RECURSIVE EscStr(_)
-EscStr(v) == IF v = <<>> THEN <<>> ELSE (IF v[1] \in {DQ, BSL} THEN <<BSL, v[1]>> ELSE <<v[1]>>) \o EscStr(Tail(v))
+RECURSIVE EscSlow(_)
+EscSlow(v) == IF v = <<>> THEN <<>> ELSE (IF v[1] \in {DQ, BSL} THEN <<BSL, v[1]>> ELSE <<v[1]>>) \o EscSlow(Tail(v))
+EscStr(v) == IF \A i \in 1..Len(v) : v[i] \notin {DQ, BSL} THEN v ELSE EscSlow(v)
 SerItem(it) ==
   CASE it.t = "int" -> it.v
     [] it.t = "str" -> <<DQ>> \o EscStr(it.v) \o <<DQ>>
